@@ -2,8 +2,10 @@
 # usage: seed_run.sh <seed-id> <prop> [tier]
 # Applies a seeded mutant to a scratch worktree of /repo's HEAD (so /repo itself
 # stays untouched and other checks can run meanwhile), runs the check against it
-# with VERIF_REPO, removes the worktree.
+# with VERIF_REPO, removes the worktree.  VERIF_SNAP (optional): a snapshot of
+# /verif (harness + binary) to run from, so that /verif can be edited meanwhile.
 S=$1; P=$2; T=${3:-quick}
+V=${VERIF_SNAP:-/verif}
 WT=/tmp/wt/seedrepo-$S-$P
 git -C /repo worktree remove --force $WT >/dev/null 2>&1
 git -C /repo worktree add -q --detach $WT HEAD || exit 2
@@ -12,6 +14,6 @@ PATCH=/verif/seeded/$S/patch.diff
 [ -f /verif/seeded/$S/patch.rebased.diff ] && PATCH=/verif/seeded/$S/patch.rebased.diff
 if ! git -C $WT apply --check $PATCH 2>/dev/null; then echo "seed=$S check=$P APPLY-FAIL"; git -C /repo worktree remove --force $WT; exit 3; fi
 git -C $WT apply $PATCH
-cd /verif && VERIF_REPO=$WT VERIF_ROOT=/verif ./bin/gosmt check $P --tier $T -noevidence > /tmp/seedrun.$S.$P.log 2>&1; rc=$?
+cd $V && VERIF_REPO=$WT VERIF_ROOT=$V ./bin/gosmt check $P --tier $T -noevidence -j 6 > /tmp/seedrun.$S.$P.log 2>&1; rc=$?
 git -C /repo worktree remove --force $WT
 echo "seed=$S check=$P exit=$rc violations=$(grep -c '^VIOLATION' /tmp/seedrun.$S.$P.log) :: $(grep 'violated assertion' /tmp/seedrun.$S.$P.log | sed 's/ *violated assertion VerifHarness_//;s/: .*//' | tr '\n' ' ')$(grep -m1 INCONCLUSIVE /tmp/seedrun.$S.$P.log | cut -c1-200)"
